@@ -307,22 +307,13 @@ def check(model, rep, tier):
             witness='two helpers generated from the same root in one function')
 
   # ---------------------------------------------------------------- HYG-BIND
-  va = model.func(ACT, 'ActivityAnalyzer.visit_arg')
-  import sa.pycfg as pycfg
-  g = pycfg.CFG(va.node)
-  add_nodes = [i for i in range(len(g.nodes)) if any(
-      core.norm(c.func) == 'self.scope.bound.add' for c in pycfg.calls_at(g, i))]
-  adds = {i: 1 for i in add_nodes}
-  rets_ = g.nodes_where(lambda k, a: k == 'return')
+  from sa import rules_trav as _rt
+  va, vc = _rt.visit_arg_conditions(model)
+  add_nodes = [1] * vc['n_bound']
   bad = []
-  allowed = {('not anno.hasanno(node, anno.Basic.QN)', 'T'),
-             ('self._track_annotations_only', 'T')}
-  for ri in rets_:
-    rng = g.count_range(adds, ends={ri}, skip_labels=())
-    if rng and rng[0] == 0:
-      mand = [(core.norm(g.nodes[t][1]), l) for t, l in g.mandatory_edges(ri)]
-      if not set(mand) & allowed:
-        bad.append(mand)
+  if vc['bound'] is None or not formula.implies(
+      ~formula.atom('ANNOT') & formula.atom('HASQN'), vc['bound'])[0]:
+    bad.append(str(vc['bound']))
   rep.check(not bad and bool(add_nodes), 'HYG-BIND', '%s:always-bound' % va.site,
             'a parameter is not recorded as bound in the function\'s own scope '
             'on some path of the declaration pass', {'paths_without_binding': bad},
